@@ -356,13 +356,35 @@ Fixpoint obs_eqb (a b : obs) : bool :=
    it was drained: afterwards no goroutine is left that could deliver anything *)
 Definition ends_shut_down (c : cfg) (kn : list N) (ops : list op) : bool := stopped (run c kn ops).
 
+(* "success only when the blob is THEN in the local cache": results are delivered while the
+   event loop applies an event, so a success for call w (blob h) is justified only if after
+   some applied event following w's request the blob is in the cache.  Asynchronous cache
+   eviction (op Evict, not an action of the scheduler) can always race with a success, so
+   schedules that evict h are exempt from this clause. *)
+Definition is_apply (o : op) : bool :=
+  match o with ApNew _ | ApComplete _ | ApRemove _ | ApTick | ApShutdown => true | _ => false end.
+Fixpoint cached_after_some_apply (c : cfg) (w h : N) (s : st) (armed : bool) (ops : list op) : bool :=
+  match ops with
+  | [] => false
+  | o :: t =>
+      let s' := step c s o in
+      let armed' := armed || match o with Download w' _ => N.eqb w w' | _ => false end in
+      (armed' && is_apply o && memb h (cache s')) || cached_after_some_apply c w h s' armed' t
+  end.
+Definition evicted_in (h : N) (ops : list op) : bool :=
+  existsb (fun o => match o with Evict h' => N.eqb h h' | _ => false end) ops.
+Definition success_justified (c : cfg) (kn : list N) (ops : list op) (w : N) : bool :=
+  let h := hash_of_call w ops in
+  evicted_in h ops || cached_after_some_apply c w h (init kn) false ops.
+
 (* the property on one observed schedule: every call returned, and success is reported
-   only for a blob that was in the cache at some point since the call *)
+   only for a blob that was in the cache at some point since the call and is in the cache
+   after some event applied since the call *)
 Definition C17_check (c : cfg) (kn : list N) (ops : list op) (o : obs) : bool :=
   if wf ops && ends_shut_down c kn ops then
     forallb (fun p => match snd p with
                       | None => false
-                      | Some RNil => memb (fst p) (seen (run c kn ops))
+                      | Some RNil => memb (fst p) (seen (run c kn ops)) && success_justified c kn ops (fst p)
                       | Some _ => true
                       end) o
     && N.eqb (N.of_nat (length o)) (N.of_nat (length (callers ops)))
